@@ -45,6 +45,9 @@ macro_rules! soft {
 
 pub const HARNESS: &str = "HARNESS";
 
+/// Transcripts as per-line digests instead of full text (set from the command line).
+pub static TRANSCRIPT_DIGEST: std::sync::atomic::AtomicBool = std::sync::atomic::AtomicBool::new(false);
+
 #[derive(Clone, Copy, Debug, PartialEq, Eq)]
 pub struct Slot {
     pub kid: u64,
@@ -460,7 +463,14 @@ impl<K: El, V: El> Mon<K, V> {
                 self.map.capacity(),
                 st0.old.is_some() as u8
             );
-            t.push(line);
+            if TRANSCRIPT_DIGEST.load(std::sync::atomic::Ordering::Relaxed) {
+                // compact form (the two builds are compared line by line; the full text of a
+                // diverging history is regenerated on demand)
+                let d = digest(line.bytes().map(|b| b as u64));
+                t.push(format!("{} {:016x} split={}", op.code.name(), d, st0.old.is_some() as u8));
+            } else {
+                t.push(line);
+            }
         }
         Ok(out.act)
     }
